@@ -7,5 +7,6 @@ CONSTANTS
   SaNs = {}
   MonoNs = {5}
   PermAllN = 0
+  LawFams = {}
 INVARIANT InvImplMinimum
 CHECK_DEADLOCK FALSE
